@@ -2354,7 +2354,9 @@ impl<'a> Ctx<'a> {
                         kind: LoweringDiagnosticKind::UsingBreakInsteadOfReturn,
                         range: whole_range,
                     });
-                    return self.resolve_first_label(whole_range, PassedDeferErr::Ignore);
+                    // if that first block lies outside of a `defer` we're in,
+                    // this is a jump out of the `defer` like any other
+                    return self.resolve_first_label(whole_range, passed_defer_err);
                 }
             }
         } else if passed_defer {
